@@ -30,10 +30,10 @@ from ..tlc import MachineryError
 LEVEL = "model_checking"
 AREA = "locals"
 BUGS = ("setattr", "delattr", "release", "push", "pop", "release_stack", "proxy_early", "spawn_fresh",
-        "release_all", "falsy_unbound")
-BUGS_QUICK = ("setattr", "pop", "release", "proxy_early", "falsy_unbound")
+        "release_all", "falsy_unbound", "iop_rebind")
+BUGS_QUICK = ("setattr", "pop", "release", "proxy_early", "falsy_unbound", "iop_rebind")
 MUTATORS = {"set", "del", "release", "push", "pop", "release_stack", "cleanup", "proxy_mutate", "proxy_pop",
-            "proxy_clear"}
+            "proxy_clear", "proxy_iadd", "proxy_isub", "proxy_ior", "proxy_imul"}
 
 
 def _job(job):
@@ -78,7 +78,8 @@ def judge_jobs(ctx: Ctx, jobs, kind="c18"):
     ctx.notes["trace_lines_recorded"] = ctx.notes.get("trace_lines_recorded", 0) + executed
     ctx.notes["trace_lines_distinct_judged"] = ctx.notes.get("trace_lines_distinct_judged", 0) + len(lines)
     ndrift = len(ctx.model_drift)
-    rejects = ctx.judge(AREA, "LocalsTrace", lines, batch=2500)
+    par = max(1, min(ctx.workers, 8))  # one round of parallel judge JVMs where possible
+    rejects = ctx.judge(AREA, "LocalsTrace", lines, batch=min(6000, max(1500, -(-len(lines) // par))))
     if len(ctx.model_drift) > ndrift:
         # a trace outside the model's vocabulary / a context that was not observed: the harness
         # is broken, nothing may be concluded
@@ -95,8 +96,7 @@ def _three_ways(ops, made):
     return [(real, ops, made) for real in loc.REALISATIONS]
 
 
-def export_tours(ctx: Ctx, cfg, rng, maxlen):
-    recs = ctx.export(AREA, "MCLocals", cfg, count_states=False, timeout=1200)
+def export_tours(ctx: Ctx, cfg, recs, rng, maxlen):
     lts = loc.LTS(recs)
     tours = lts.tours(rng, maxlen=maxlen)
     covered = sum(len(p) for p in tours)
@@ -127,7 +127,8 @@ def judge_selftest(ctx: Ctx):
     field is corrupted (a judge that accepts everything would make the whole check vacuous)."""
     ops = [loc.mkop(1, "set", n="x", b=1), loc.mkop(1, "push", b=2), loc.mkop(1, "mkproxy", k="x"),
            loc.mkop(1, "spawn", child=2), loc.mkop(2, "set", n="x", b=2), loc.mkop(2, "pop"),
-           loc.mkop(1, "proxy_mutate", k="x", v=1), loc.mkop(2, "release")]
+           loc.mkop(1, "proxy_mutate", k="x", v=1), loc.mkop(2, "release"),
+           loc.mkop(2, "set", n="x", b=9), loc.mkop(2, "proxy_iadd", k="x", v=1)]
     good = loc.run_trace("copy_context", ops)
     variants = {"clean": None,
                 "sibling-attr": lambda tl: tl[5]["obs"][0]["get"][0].__setitem__("id", 2),   # ctx 1 sees ctx 2's x
@@ -135,21 +136,37 @@ def judge_selftest(ctx: Ctx):
                 "proxy-truthy": lambda tl: tl[8]["obs"][1]["prox"][0].__setitem__("truthy", True),
                 "return": lambda tl: tl[6]["r"].__setitem__("id", 1),
                 # ctx 2's x is object 2 (bound, falsy): claiming RuntimeError there must be rejected
-                "falsy-bound": lambda tl: tl[5]["obs"][1]["prox"][0].__setitem__("cur", 0)}
+                "falsy-bound": lambda tl: tl[5]["obs"][1]["prox"][0].__setitem__("cur", 0),
+                # after `name += 1` in ctx 2 the name must still hold the proxy, for ctx 1 too
+                "iop-rebind": lambda tl: tl[10]["obs"][0]["prox"][0].__setitem__("isproxy", False),
+                # len() through the proxy must be the accessing context's object's
+                "fwd-len": lambda tl: tl[10]["obs"][1]["prox"][0]["fw"].__setitem__(0, 2)}
     lines, names = [], []
     for t, (name, f) in enumerate(variants.items()):
         tl = json.loads(json.dumps(good))
         if f:
-            f(tl)
+            try:
+                f(tl)
+            except (IndexError, KeyError, TypeError):
+                continue  # the recording has another shape (broken tree): the clean trace decides
         for ln in tl:
             ln["t"] = t
         lines += tl
         names.append(name)
     traces0 = ctx.traces
-    rejected = {names[r["t"]]: r["clause"] for r in ctx.judge(AREA, "LocalsTrace", lines)}
+    recs = ctx.judge(AREA, "LocalsTrace", lines)
     ctx.traces = traces0  # self-test lines are not evidence about werkzeug
+    rejected = {names[r["t"]]: r["clause"] for r in recs}
     ctx.notes["judge_selftest"] = rejected
-    if "clean" in rejected or set(rejected) != set(names) - {"clean"}:
+    clean = [r for r in recs if names[r["t"]] == "clean"]
+    if clean:
+        # the faithfully recorded behaviour itself is rejected: that is a verdict about the code
+        # under test (the self-test cannot be evaluated on such a tree), not a machinery failure
+        r = clean[0]
+        ctx.violation(f"{r['clause']}:{ops[r['i']]['op']}:copy_context", r["clause"],
+                      {"real": "copy_context", "made": [], "ops": ops[: r["i"] + 1]}, kind="c18")
+        return
+    if set(rejected) != set(names) - {"clean"}:
         raise MachineryError(f"LocalsTrace self-test failed: {rejected}")
 
 
@@ -157,8 +174,8 @@ def run(ctx: Ctx):
     q = ctx.quick
     rng = random.Random(ctx.seed)
     ctx.rule = ("case = one operation (set/get/del/iter/release, push/pop/top/release_stack, LocalManager.cleanup, "
-                "create proxy, read / mutate / pop() / clear() through proxy, spawn child context; stored objects: plain, "
-                "__bool__-falsy, 0, '', [], {}, a list emptied through the proxy) executed on the real objects inside a "
+                "create proxy, read / mutate / pop() / clear() / += -= |= *= through proxy, spawn child context; stored objects: "
+                "plain, __bool__-falsy, ints, strs, a tuple, a frozenset, lists, a dict) executed on the real objects inside a "
                 "behaviour, followed by reading everything every live context can see, judged by TLC; behaviours: tours "
                 "covering every transition of the TLC-exported contract LTS + seeded random schedules, each realised with "
                 "copy_context, lock-stepped threads and hand-stepped asyncio tasks; non-trivial = distinct behaviour with a "
@@ -168,29 +185,50 @@ def run(ctx: Ctx):
         "per-context variable; preemption inside an operation is not explored)",
         "stored values are objects identified by `is` (plain objects with one field, an object with a state-dependent __bool__, "
         "the int 0, '', lists, a dict); a child's snapshot is a snapshot of the bindings (shallow), as with contextvars",
+        "`name += x` on a name holding a proxy applies the operator to the object bound in the acting context, drops the result "
+        "and leaves the proxy in the name (_ProxyIOp docstring); operands of the wrong type raise what Python raises for the object",
+        "forwarded len/iter/[0]/in/+/hash/str/== are judged against what Python answers for the modelled object (items of a list "
+        "grown through the proxy are not modelled: `7 in` accepts both answers there); `unbound == x` is not judged",
         "a proxy bound to a falsy object is bound: bool(proxy) = bool(object), unbound-ness is judged by RuntimeError / "
         "_get_current_object / repr, never by truthiness; None itself is not stored (LocalStack uses it for 'empty')",
         "iteration order of Local.__iter__ is not specified and not judged (items compared as a set)",
         "bounded models: <= 3 contexts, names {x,y}, 2 objects, stack depth <= 2, <= 5 (quick) / 7 (thorough) operations; "
         "plus all behaviours of any length for 3 contexts, 1 name, depth 1 (thorough)",
     ]
+    phases = ctx.notes.setdefault("phase_s", {})
+    t0 = ctx.elapsed()
     # 1. model checking -------------------------------------------------------------------------
-    ctx.model_check(AREA, "MCLocals", "MCQ_laws", timeout=600)
-    ctx.model_check(AREA, "LocalsImpl", "MCQ_impl", timeout=900)
-    refute_bugs(ctx, BUGS_QUICK if q else BUGS)
-    judge_selftest(ctx)
+    # (independent TLC runs, started side by side: most of their wall time is JVM start-up)
+    w = max(2, ctx.workers // 2)
+    with cf.ThreadPoolExecutor(max_workers=5) as ex:
+        futs = [ex.submit(ctx.model_check, AREA, "MCLocals", "MCQ_laws", timeout=600, workers=w),
+                ex.submit(ctx.model_check, AREA, "LocalsImpl", "MCQ_impl", timeout=900, workers=w),
+                ex.submit(ctx.model_check, AREA, "LocalsImpl", "MCQ_iop", timeout=900, workers=w),
+                ex.submit(refute_bugs, ctx, BUGS_QUICK if q else BUGS),
+                ex.submit(judge_selftest, ctx)]
+        for f in futs:
+            f.result()
     if not q:
         ctx.model_check(AREA, "MCLocals", "MCT_laws", timeout=3000)
         ctx.model_check(AREA, "LocalsImpl", "MCT_impl", timeout=3000)
         ctx.model_check(AREA, "LocalsImpl", "MCT_impl_full", timeout=3000)
         ctx.model_check(AREA, "LocalsImpl", "MCT_impl_full2", timeout=3000)
+        ctx.model_check(AREA, "LocalsImpl", "MCT_iop", timeout=3000)
     ctx.exhaustive = True
+    phases["model_checking"] = round(ctx.elapsed() - t0, 1)
+    t0 = ctx.elapsed()
     # 2. spec -> code: tours over the exported transition system ----------------------------------
     jobs = []
-    for cfg in (["MCX_q", "MCX_q3", "MCX_qf"] if q else ["MCX_q", "MCX_q3", "MCX_qf", "MCX_t", "MCX_t3", "MCX_tf"]):
-        for p, made in export_tours(ctx, cfg, rng, maxlen=30 if q else 100):
+    cfgs = (["MCX_q", "MCX_qm", "MCX_q3", "MCX_qf", "MCX_qi"] if q
+            else ["MCX_q", "MCX_qm", "MCX_q3", "MCX_qf", "MCX_qi", "MCX_t", "MCX_t3", "MCX_tf", "MCX_ti"])
+    with cf.ThreadPoolExecutor(max_workers=4) as ex:
+        exported = list(ex.map(lambda c: ctx.export(AREA, "MCLocals", c, count_states=False, timeout=1200), cfgs))
+    for cfg, recs in zip(cfgs, exported):
+        for p, made in export_tours(ctx, cfg, recs, rng, maxlen=30 if q else 100):
             jobs += _three_ways(p, made)
     ctx.notes["tour_traces"] = len(jobs)
+    phases["export_and_tours"] = round(ctx.elapsed() - t0, 1)
+    t0 = ctx.elapsed()
     # 3. code -> spec: seeded random schedules -----------------------------------------------------
     nrand = 250 if q else 6000
     for i in range(nrand):
@@ -205,6 +243,7 @@ def run(ctx: Ctx):
     chunk = 2400  # behaviours per execute+judge round (bounds memory; realisations stay adjacent)
     for i in range(0, len(jobs), chunk):
         judge_jobs(ctx, jobs[i:i + chunk])
+    phases["execute_and_judge"] = round(ctx.elapsed() - t0, 1)
 
 
 def _short(o):
